@@ -34,6 +34,7 @@ def run_case(case):
                 rpc, opts["records_per_chunk"] = rpc[0], rpc[1]
             elif rpc is not None:
                 opts["records_per_chunk"] = rpc
+            asked = opts.get("records_per_chunk")   # (kept apart: an implementation may -- wrongly -- edit the caller's dict)
             tracefs.take_log()
             try:
                 if rpc in case["rpcs"][1:4] and ref is not None and not case.get("_second"):
@@ -59,7 +60,7 @@ def run_case(case):
             for im in b.images:
                 node = fp[f"/imagery/{im['group']}"]["vars"]["data"]
                 enc = node.pop("encoding")
-                eff = 1024 if rpc is None else int(opts["records_per_chunk"])
+                eff = 1024 if rpc is None else int(asked)
                 want = {"rows": min(eff, im["n"]), "columns": im["p"]}
                 got = enc.get("preferred_chunksizes")
                 if got != want:
